@@ -224,6 +224,9 @@ func (env *specEnv) eval(e ast.Expr) Val {
 			}
 		}
 		if v, ok := env.vars[e.Name]; ok {
+			if v.cellOf != nil && len(v.ts) == 1 {
+				return x.loadAt(env.h(), Val{ts: v.ts}, v.cellOf)
+			}
 			return v
 		}
 		if d, ok := x.topDerefs[e.Name]; ok {
